@@ -15,6 +15,9 @@ inductive Op (P : Type) where
   | tick (fund : Option P)
   | jump (k : Nat) (fund : Option P)
   | setRunning (b : Bool)
+  /-- `market._fundamental_prices[time] = f` (`Market.change_fundamental_price`: an event rewrites the
+  fundamental price of the *current* step) -/
+  | setFund (f : Option P)
 deriving Repr
 
 inductive Rec (P : Type) where
@@ -37,6 +40,7 @@ def Market.step (ops : PriceOps P) (m : Market P) : Op P → Market P × List (R
   | .tick f => ((m.tick ops f).1, (m.tick ops f).2.map Rec.expiry)
   | .jump k f => ((m.setTime ops (k + 1) f).1, (m.setTime ops (k + 1) f).2.map Rec.expiry)
   | .setRunning b => ({ m with running := b }, [])
+  | .setFund f => ({ m with cur := { m.cur with fund := f } }, [])
 
 /-- run a whole history, collecting the trace -/
 def Market.runOps (ops : PriceOps P) (m : Market P) : List (Op P) → Market P × List (Rec P)
